@@ -786,6 +786,10 @@ def handle (ts : List String) : String :=
     match runP (pList pOp) rest with
     | some h => encRState (Rtr.run h)
     | none => "bad-op"
+  | "spec" :: "deliveries" :: idx :: rest =>
+    match runP (pList pOp) rest, idx.toNat? with
+    | some h, some i => String.intercalate " " (((Spec.Rtr.expectedTrace h).getD i []).map encTarget)
+    | _, _ => "bad-op"
   | "router" :: "deliveries" :: idx :: rest =>
     match runP (pList pOp) rest, idx.toNat? with
     | some h, some i => String.intercalate " " (((Rtr.trace Rtr.init h).getD i []).map encTarget)
